@@ -2,6 +2,7 @@ import ParryModel.Proto
 import ParryModel.C12.Model
 import ParryModel.C12.Driver2
 import ParryModel.C12.Driver3
+import ParryModel.C12.Driver4
 import ParryModel.C12.Polygon
 import Std.Data.HashMap
 /-! C12 protocol handlers. -/
@@ -273,6 +274,6 @@ def handler (fn : String) : Option Handler :=
               polyOracle none d
             | none => "fail unparsable-output")
         | none => "skip bad-args" }
-  | f => handler3 f
+  | f => match handler3 f with | some h => some h | none => handler4 f
 
 end C12
